@@ -1,6 +1,164 @@
-(* C04 - placeholder until Proofs/BitsProofs.v is merged (see Props/pending/C04.v). *)
-From Xeh Require Import Model.Prelude Model.Bits Proofs.BitsBasic.
+(* C04 - bit-string operations depend only on the bit sequence, never on how it
+   is stored.  Property theorems only: each is closed by [exact] of a lemma proved
+   in Proofs/.  [wf c] admits ANY representation: any offset, any slack after the
+   range, any stale bits outside it; [u] is the answer of Rc::strong_count == 1,
+   so both values cover "whatever the value's history". *)
+From Xeh Require Import Model.Prelude Model.Bits Proofs.BitsBasic Proofs.BitsProofs.
 
-Theorem C04_abs_length : forall c, length (abs c) = clen c.
-Proof. exact abs_length. Qed.
-Check C04_abs_length : forall c, length (abs c) = clen c.
+
+
+Theorem C04_bits : forall c, wf c -> bits c = map b2n (abs c).
+Proof. exact bits_spec. Qed.
+Check C04_bits : forall c, wf c -> bits c = map b2n (abs c).
+
+Theorem C04_iter8 : forall c, wf c -> iter8 c = map grp (chunk8 (abs c)).
+Proof. exact iter8_spec. Qed.
+Check C04_iter8 : forall c, wf c -> iter8 c = map grp (chunk8 (abs c)).
+
+Theorem C04_seek : forall c pos, wf c ->
+  match seek c pos with
+  | Some r => cstart c <= pos <= cend c /\ wf r /\ abs r = skipn (pos - cstart c) (abs c)
+  | None => ~ (cstart c <= pos <= cend c)
+  end.
+Proof. exact seek_spec. Qed.
+Check C04_seek : forall c pos, wf c ->
+  match seek c pos with
+  | Some r => cstart c <= pos <= cend c /\ wf r /\ abs r = skipn (pos - cstart c) (abs c)
+  | None => ~ (cstart c <= pos <= cend c)
+  end.
+
+Theorem C04_read : forall c n, wf c ->
+  match read c n with
+  | Some (r, rest) => n <= clen c /\ wf r /\ wf rest /\
+                      abs r = firstn n (abs c) /\ abs rest = skipn n (abs c)
+  | None => clen c < n
+  end.
+Proof. exact read_spec. Qed.
+Check C04_read : forall c n, wf c ->
+  match read c n with
+  | Some (r, rest) => n <= clen c /\ wf r /\ wf rest /\
+                      abs r = firstn n (abs c) /\ abs rest = skipn n (abs c)
+  | None => clen c < n
+  end.
+
+Theorem C04_peek : forall c n, wf c ->
+  match peek c n with
+  | Some r => n <= clen c /\ wf r /\ abs r = firstn n (abs c)
+  | None => clen c < n
+  end.
+Proof. exact peek_spec. Qed.
+Check C04_peek : forall c n, wf c ->
+  match peek c n with
+  | Some r => n <= clen c /\ wf r /\ abs r = firstn n (abs c)
+  | None => clen c < n
+  end.
+
+Theorem C04_substr : forall c s e, wf c ->
+  match substr c s e with
+  | Some r => s <= e /\ cstart c <= s /\ e <= cend c /\ wf r /\
+              abs r = firstn (e - s) (skipn (s - cstart c) (abs c))
+  | None => ~ (s <= e /\ cstart c <= s /\ e <= cend c)
+  end.
+Proof. exact substr_spec. Qed.
+Check C04_substr : forall c s e, wf c ->
+  match substr c s e with
+  | Some r => s <= e /\ cstart c <= s /\ e <= cend c /\ wf r /\
+              abs r = firstn (e - s) (skipn (s - cstart c) (abs c))
+  | None => ~ (s <= e /\ cstart c <= s /\ e <= cend c)
+  end.
+
+Theorem C04_split_at : forall c i, wf c ->
+  match split_at c i with
+  | Some (l, r) => i <= clen c /\ wf l /\ wf r /\
+                   abs l = firstn i (abs c) /\ abs r = skipn i (abs c)
+  | None => clen c < i
+  end.
+Proof. exact split_at_spec. Qed.
+Check C04_split_at : forall c i, wf c ->
+  match split_at c i with
+  | Some (l, r) => i <= clen c /\ wf l /\ wf r /\
+                   abs l = firstn i (abs c) /\ abs r = skipn i (abs c)
+  | None => clen c < i
+  end.
+
+Theorem C04_detach : forall u c, wf c -> wf (detach u c) /\ abs (detach u c) = abs c.
+Proof. exact detach_spec. Qed.
+Check C04_detach : forall u c, wf c -> wf (detach u c) /\ abs (detach u c) = abs c.
+
+Theorem C04_append : forall u c t, wf c -> wf t ->
+  wf (append u c t) /\ abs (append u c t) = abs c ++ abs t.
+Proof. exact append_spec. Qed.
+Check C04_append : forall u c t, wf c -> wf t ->
+  wf (append u c t) /\ abs (append u c t) = abs c ++ abs t.
+
+Theorem C04_insert : forall u c i s, wf c -> wf s ->
+  match insert u c i s with
+  | Some r => i <= clen c /\ wf r /\ abs r = firstn i (abs c) ++ abs s ++ skipn i (abs c)
+  | None => clen c < i
+  end.
+Proof. exact insert_spec. Qed.
+Check C04_insert : forall u c i s, wf c -> wf s ->
+  match insert u c i s with
+  | Some r => i <= clen c /\ wf r /\ abs r = firstn i (abs c) ++ abs s ++ skipn i (abs c)
+  | None => clen c < i
+  end.
+
+Theorem C04_invert : forall u c, wf c ->
+  wf (invert u c) /\ abs (invert u c) = map negb (abs c).
+Proof. exact invert_spec. Qed.
+Check C04_invert : forall u c, wf c ->
+  wf (invert u c) /\ abs (invert u c) = map negb (abs c).
+
+Theorem C04_eq_with : forall a b, wf a -> wf b -> (eq_with a b = true <-> abs a = abs b).
+Proof. exact eq_with_spec. Qed.
+Check C04_eq_with : forall a b, wf a -> wf b -> (eq_with a b = true <-> abs a = abs b).
+
+Theorem C04_to_hex : forall c, wf c ->
+  to_hex_digits c =
+  flat_map (fun g => (if 4 <? length g then [N.shiftr (bits_to_N g) 4] else []) ++ [N.land (bits_to_N g) 15])
+           (chunk8 (abs c)).
+Proof. exact to_hex_spec. Qed.
+Check C04_to_hex : forall c, wf c ->
+  to_hex_digits c =
+  flat_map (fun g => (if 4 <? length g then [N.shiftr (bits_to_N g) 4] else []) ++ [N.land (bits_to_N g) 15])
+           (chunk8 (abs c)).
+
+Theorem C04_to_bytes : forall c, wf c ->
+  to_bytes c = if clen c mod 8 =? 0 then Some (map bits_to_N (chunk8 (abs c))) else None.
+Proof. exact to_bytes_spec. Qed.
+Check C04_to_bytes : forall c, wf c ->
+  to_bytes c = if clen c mod 8 =? 0 then Some (map bits_to_N (chunk8 (abs c))) else None.
+
+Theorem C04_bytestr : forall c, wf c ->
+  bytestr c = if clen c mod 8 =? 0 then Some (map bits_to_N (chunk8 (abs c))) else None.
+Proof. exact bytestr_spec. Qed.
+Check C04_bytestr : forall c, wf c ->
+  bytestr c = if clen c mod 8 =? 0 then Some (map bits_to_N (chunk8 (abs c))) else None.
+
+Theorem C04_slice : forall c d, wf c -> slice c = Some d -> d = map bits_to_N (chunk8 (abs c)).
+Proof. exact slice_spec. Qed.
+Check C04_slice : forall c d, wf c -> slice c = Some d -> d = map bits_to_N (chunk8 (abs c)).
+
+Theorem C04_padding : forall c, wf c -> to_bytes_with_padding c = map bits_to_N (chunk8 (abs c)).
+Proof. exact padding_spec. Qed.
+Check C04_padding : forall c, wf c -> to_bytes_with_padding c = map bits_to_N (chunk8 (abs c)).
+
+Theorem C04_from_bits : forall l, wf (of_bools l) /\ abs (of_bools l) = l.
+Proof. exact of_bools_spec. Qed.
+Check C04_from_bits : forall l, wf (of_bools l) /\ abs (of_bools l) = l.
+
+
+
+Theorem C04_from_hex : forall ds, Forall (fun d => (d < 16)%N) ds ->
+  wf (from_hex ds) /\ abs (from_hex ds) = flat_map nibble_bits ds.
+Proof. exact from_hex_spec. Qed.
+Check C04_from_hex : forall ds, Forall (fun d => (d < 16)%N) ds ->
+  wf (from_hex ds) /\ abs (from_hex ds) = flat_map nibble_bits ds.
+
+(* the hypotheses are satisfiable by a value with slack after its range and stale
+   bits inside its last byte: a uniquely owned 4-bit slice of ff 34 *)
+Example C04_nonvacuous :
+  wf (mkcbs 0 4 [255; 52]%N) /\
+  abs (append true (mkcbs 0 4 [255; 52]%N) (mkcbs 0 4 [0]%N))
+  = [true; true; true; true; false; false; false; false].
+Proof. split; [repeat split; try (cbn; lia); repeat constructor | reflexivity]. Qed.
